@@ -64,6 +64,10 @@ def explore(ctx):
         frac = rng.random() < 0.4
         base = dsgen.base_master(rng, int_coords=not frac)
         masters = [base, dsgen.perturb(rng, base, 1)]
+        if frac:
+            # fractional kerning values too (quarters: exact in binary floating point)
+            for m in masters:
+                m["kerning"] = {k: v + Fr(rng.randint(-3, 3), 4) for k, v in m["kerning"].items()}
         ds, fonts = dsgen.make_designspace(rng, masters, lib)
         names = [g["name"] for g in base["glyphs"]]
         kern_keys = sorted(set(base["kerning"]) | set(masters[1]["kerning"]))
@@ -75,7 +79,9 @@ def explore(ctx):
             ctx.spec_failure({"font": jsonable(base)}, "Instantiator.from_designspace raised %s: %s" % (type(e).__name__, e))
             continue
         m0, m1 = font_vector(fonts[0], names, kern_keys), font_vector(fonts[1], names, kern_keys)
-        for loc in ([100, 300, 500, 700, 900] if not ctx.quick() else rng.sample([100, 300, 500, 700, 900], 3)):
+        # one Instantiator serves the whole sequence; a master location comes first so that whatever it hands out
+        # there is exercised (and possibly rounded) before the interior locations are blended
+        for loc in ([900, 300, 100, 500, 700] if not ctx.quick() else [rng.choice([100, 900])] + rng.sample([300, 500, 700], 2)):
             d = InstanceDescriptor()
             d.familyName, d.styleName, d.location = "Fam", "I%d" % loc, {"Weight": loc}
             case = {"font": jsonable(base), "master1": jsonable(masters[1]), "location": loc, "round_geometry": rnd, "lib": lib}
